@@ -49,7 +49,7 @@ RULE = ("histories of 3-25 events (defmacro / require in the shapes {bare, :as, 
         "like core macros; two fixture macro modules and a package with a submodule (export lists via setv/export, "
         "private names), in memory or on disk. Non-trivial = history in which some name is bound in >= 2 namespaces "
         "(extra, a local scope, another local scope, module, core); distinct by module text + fixtures.")
-FLOOR = {"quick": 800, "thorough": 800}
+FLOOR = {"quick": 500, "thorough": 800}
 BUDGET = {"quick": 35, "thorough": 480}
 CASE_TIMEOUT = 30
 NEEDS_EVENTS = True
